@@ -48,6 +48,13 @@ TCliOut ==
        \/ "Cli!PartialStdout" \in Deviations /\ exit = 1 /\ Ev.out = "partial"
     /\ UNCHANGED core
 
+\* as built only (KF-C01-01): the execution was killed on its CPU budget AND the input lies in the finding's narrow
+\* domain (fields of the event = what the harness read from the input's OLE property sets)
+TKnownSpin ==
+    /\ IsEvent("Timeout") /\ "Ole!VectorCountLoop" \in Deviations
+    /\ Ev.k \in LegacyKinds /\ InDomain_KF_C01_01(Ev)
+    /\ UNCHANGED core
+
 TraceInit ==
     /\ tid \in 1..Len(Traces) /\ l = 1
     /\ plan = <<>> /\ ctl = <<>> /\ faults = 0 /\ flog = <<>>
@@ -55,7 +62,7 @@ TraceInit ==
     /\ stdout = "empty" /\ stderr = 0 /\ exit = NoExit /\ phase = "init"
 
 TraceNext ==
-    /\ (TEnter \/ TRaise \/ TWrap \/ TAbsorb \/ TUnwind \/ TYield \/ TReturn \/ TOutcome \/ TCliOut)
+    /\ (TEnter \/ TRaise \/ TWrap \/ TAbsorb \/ TUnwind \/ TYield \/ TReturn \/ TOutcome \/ TCliOut \/ TKnownSpin)
     /\ Inv_Surface' /\ Inv_MemberIsolation' /\ Inv_Cli' /\ Inv_WrapClass'
 
 TraceSpec == TraceInit /\ [][TraceNext]_tvars
